@@ -209,22 +209,38 @@ func c06Check(ci interface{}) lib.Outcome {
 					restricted++
 					continue
 				}
-				k := (op.Arg + p) % (len(f) - 1) // never the last word of the line
+				k := (op.Arg + p) % (len(f) - 1)
+				lastWord := (op.Arg+p)%3 == 0
+				if lastWord {
+					// the last word of the line: its remainder stands alone on the next line and ends at a line break
+					k = len(f) - 1
+				}
 				m := c06PlainWord.FindStringSubmatch(f[k])
-				if m == nil || len(m[2]) < 4 || endsLikeHeader(f[k+1]) || endsLikeHeader(f[k]) || (k == 0 && m[1] != "") {
+				if m == nil || len(m[2]) < 4 || endsLikeHeader(f[k]) || (k == 0 && m[1] != "") || (!lastWord && endsLikeHeader(f[k+1])) {
 					restricted++
 					continue
 				}
-				r1 := []rune(f[k+1])[0]
-				if !(unicode.IsLetter(r1) || unicode.IsDigit(r1)) {
-					restricted++
-					continue
+				if !lastWord {
+					r1 := []rune(f[k+1])[0]
+					if !(unicode.IsLetter(r1) || unicode.IsDigit(r1)) {
+						restricted++
+						continue
+					}
 				}
 				cut := 1 + (op.Arg+p)%(len(m[2])-2)
 				first := strings.Join(append(append([]string{}, f[:k]...), m[1]+m[2][:cut]+"-"), " ")
 				second := strings.Join(append([]string{m[2][cut:] + m[3]}, f[k+1:]...), " ")
 				nl := append([]tline{}, ls[:i]...)
 				nl = append(nl, tline{s: first, eol: "\n", orig: ls[i].orig}, tline{s: second, eol: ls[i].eol, orig: -1})
+				if lastWord && (op.Arg+p)%2 == 0 {
+					// and a notice on the line after the remainder
+					text := c06Notices[(op.Arg+p)%len(c06Notices)]
+					tag := -2 - len(inserted)
+					inserted = append(inserted, c06Inserted{tag: text, notice: true})
+					nl = append(nl, tline{s: text, eol: "\n", orig: tag})
+					applied["notice"]++
+					applied["notice-after-split-remainder"]++
+				}
 				nl = append(nl, ls[i+1:]...)
 				ls = nl
 				fr = frozenLines(ls)
